@@ -1,6 +1,176 @@
-From Coq Require Import ZArith List Bool.
+(* C10  Query, form and JSON data reach handlers exactly as sent.
+   Statements only; every proof is [exact <lemma of proofs/QueryFormProofs.v>].
+   Strings are lists of code points, bytes lists of byte values.  All
+   statements quantify over every pair list / text / configuration. *)
+From Coq Require Import ZArith List Bool String.
 Require Import PW.lib.Val PW.model.QueryForm PW.proofs.QueryFormProofs.
 Import ListNotations.
 Open Scope Z_scope.
-Theorem C10_placeholder : parse_qsl true [] = []. Proof. exact placeholder. Qed.
-Print Assumptions C10_placeholder.
+
+(* UTF-8: decoding the encoding of any text of Unicode scalar values gives
+   the text back (proved arithmetically, no hypothesis left) *)
+Theorem C10_utf8_roundtrip :
+  forall s, valid_scalar_text s -> utf8_dec (utf8_enc s) = s.
+Proof. exact utf8_roundtrip. Qed.
+Print Assumptions C10_utf8_roundtrip.
+
+(* quote_plus/urlencode then parse_qsl: exactly the pairs, blanks kept or
+   dropped per keep_blank_values *)
+Theorem C10_qsl_roundtrip :
+  forall pairs keep, valid_pairs pairs ->
+    parse_qsl keep (encode pairs) =
+    if keep then pairs else filter nonblank pairs.
+Proof. exact qsl_roundtrip. Qed.
+Print Assumptions C10_qsl_roundtrip.
+
+(* the same for every legal encoding of the pairs ([qs_of]: visible ASCII
+   literal, '+' or %20 for a space, %XX with hex digits of either case for
+   any byte, empty pieces between '&') *)
+Theorem C10_qsl_decodes_any_encoding :
+  forall keep q pairs, qs_of q pairs -> valid_pairs pairs ->
+    parse_qsl keep q = if keep then pairs else filter nonblank pairs.
+Proof. exact qsl_decodes. Qed.
+Print Assumptions C10_qsl_decodes_any_encoding.
+
+(* QUERY_STRING -> req.args : strip, parse_qs, collapse *)
+Theorem C10_args_roundtrip :
+  forall keep q pairs, qs_of q pairs -> valid_pairs pairs ->
+    args_of keep q =
+    args_dict (if keep then pairs else filter nonblank pairs).
+Proof. exact args_roundtrip. Qed.
+Print Assumptions C10_args_roundtrip.
+
+(* urlencoded body -> fields of req.form *)
+Theorem C10_form_roundtrip :
+  forall keep q pairs, qs_of q pairs -> valid_pairs pairs ->
+    form_fields keep q = if keep then pairs else filter nonblank pairs.
+Proof. exact form_roundtrip. Qed.
+Print Assumptions C10_form_roundtrip.
+
+(* single keys scalar, repeated keys lists in order, other keys absent *)
+Theorem C10_args_collapse :
+  forall pairs k,
+    lookup k (args_dict pairs) =
+    match vals k pairs with
+    | [] => None
+    | [v] => Some (AS v)
+    | vs => Some (AL vs)
+    end.
+Proof. exact args_collapse. Qed.
+Print Assumptions C10_args_collapse.
+
+Theorem C10_args_key_order :
+  forall pairs, map fst (args_dict pairs) = first_occ [] (map fst pairs).
+Proof. exact args_key_order. Qed.
+Print Assumptions C10_args_key_order.
+
+(* Args: getlist = all values of k in order, getfirst = the first,
+   getvalue = scalar or list *)
+Theorem C10_accessors_agree_args :
+  forall pairs k,
+    a_getlist (args_dict pairs) k = TList (map Some (vals k pairs)) /\
+    a_getfirst (args_dict pairs) k =
+      match vals k pairs with [] => TNone | v :: _ => TStr v end /\
+    a_getvalue (args_dict pairs) k =
+      match vals k pairs with
+      | [] => TNone | [v] => TStr v | vs => TList (map Some vs)
+      end.
+Proof. exact args_accessors. Qed.
+Print Assumptions C10_accessors_agree_args.
+
+(* FieldStorage.  Full statement (false, see the refutation): the same three
+   equations for every field list.  Proved: for field lists without blank
+   values.  Missing: FieldStorage.value answers None for a kept blank value,
+   so getvalue/getfirst give None and getlist drops it. *)
+Theorem C10_accessors_agree_form_partial :
+  forall fields k,
+    Forall (fun f => snd f <> []) fields ->
+    f_getlist fields k = TList (map Some (vals k fields)) /\
+    f_getfirst fields k =
+      match vals k fields with [] => TNone | v :: _ => TStr v end /\
+    f_getvalue fields k =
+      match vals k fields with
+      | [] => TNone | [v] => TStr v | vs => TList (map Some vs)
+      end.
+Proof. exact form_accessors. Qed.
+Print Assumptions C10_accessors_agree_form_partial.
+
+Theorem C10_accessors_agree_form_refuted :
+  exists fields k,
+    f_getlist fields k <> TList (map Some (vals k fields)) /\
+    f_getvalue fields k = TNone /\ vals k fields = [[]].
+Proof. exact form_accessors_blank_refuted. Qed.
+Print Assumptions C10_accessors_agree_form_refuted.
+
+(* JsonDict.  Full statement: getfirst is the first element or the default.
+   Proved: everything except getfirst on a key whose value is the empty
+   list (refuted below: IndexError). *)
+Theorem C10_accessors_agree_jsondict_partial :
+  forall d k,
+    match lookup k d with
+    | None => jd_getvalue d k = JRNone /\ jd_getfirst d k = JRNone /\
+              jd_getlist d k = JRVal (JArr [])
+    | Some (JArr l) =>
+        jd_getvalue d k = JRVal (JArr l) /\ jd_getlist d k = JRVal (JArr l) /\
+        (forall x r, l = x :: r -> jd_getfirst d k = JRVal x)
+    | Some j => jd_getvalue d k = JRVal j /\ jd_getfirst d k = JRVal j /\
+                jd_getlist d k = JRVal (JArr [j])
+    end.
+Proof. exact jsondict_accessors. Qed.
+Print Assumptions C10_accessors_agree_jsondict_partial.
+
+Theorem C10_jsondict_getfirst_empty_list_refuted :
+  exists d k, lookup k d = Some (JArr []) /\
+              jd_getlist d k = JRVal (JArr []) /\
+              jd_getfirst d k = JRRaise "IndexError"%string.
+Proof. exact jsondict_getfirst_empty_refuted. Qed.
+Print Assumptions C10_jsondict_getfirst_empty_list_refuted.
+
+Theorem C10_accessors_agree_jsonlist :
+  forall l,
+    jl_getlist l = JRVal (JArr l) /\
+    jl_getvalue l = match l with [] => JRNone | x :: _ => JRVal x end /\
+    jl_getfirst l = jl_getvalue l.
+Proof. exact jsonlist_accessors. Qed.
+Print Assumptions C10_accessors_agree_jsonlist.
+
+Theorem C10_accessors_agree_emptyform :
+  forall k, e_getvalue k = TNone /\ e_getfirst k = TNone /\
+            e_getlist k = TList [].
+Proof. exact empty_accessors. Qed.
+Print Assumptions C10_accessors_agree_emptyform.
+
+(* a body that cannot be decoded or parsed is the 400 outcome, for every
+   decoder and JSON parser *)
+Theorem C10_bad_json_is_400 :
+  forall decode loads raw charset,
+    (decode charset raw = None \/
+     exists t, decode charset raw = Some t /\ loads t = None) ->
+    parse_json_request decode loads raw charset = J400.
+Proof. exact bad_json_400. Qed.
+Print Assumptions C10_bad_json_is_400.
+
+(* Body budget.  Full statement (false, see the refutation):
+     forall c, exists n, plan_cost (body_plan c) = Some n /\
+                         n <= Z.max 0 (clen c).
+   Proved: for every configuration except (a) HTTP/0.9 without a length and
+   (b) [raw_lines c]: the multipart (or length-less single part) parser
+   working on the raw stream (cached_size = 0 and the body not buffered). *)
+Theorem C10_body_budget_partial :
+  forall c,
+    (http09 c = false \/ 0 <= clen c) -> raw_lines c = false ->
+    exists n, plan_cost (body_plan c) = Some n /\ n <= Z.max 0 (clen c).
+Proof. exact body_budget. Qed.
+Print Assumptions C10_body_budget_partial.
+
+Theorem C10_raw_lines_unbounded :
+  forall c, raw_lines c = true ->
+    body_plan c = [RLines] /\ plan_cost (body_plan c) = None.
+Proof. exact raw_lines_unbounded. Qed.
+Print Assumptions C10_raw_lines_unbounded.
+
+Theorem C10_body_budget_refuted :
+  exists c, http09 c = false /\ 0 < clen c /\
+            plan_cost (body_plan c) = None.
+Proof. exact body_budget_refuted. Qed.
+Print Assumptions C10_body_budget_refuted.
